@@ -4,6 +4,7 @@ pub mod c02;
 pub mod c03;
 pub mod c04;
 pub mod c05;
+pub mod c06;
 pub mod c07;
 pub mod c08;
 pub mod c09;
@@ -30,6 +31,7 @@ pub fn run(id: &str, tier: &str) -> Option<i32> {
         "C03" => { let r = Report::new(id, tier, "model_checking"); c03::check(&r); r }
         "C04" => { let r = Report::new(id, tier, "model_checking"); c04::check(&r); r }
         "C05" => { let r = Report::new(id, tier, "model_checking"); c05::check(&r); r }
+        "C06" => { let r = Report::new(id, tier, "fault_enumeration"); c06::check(&r); r }
         "C07" => { let r = Report::new(id, tier, "model_checking"); c07::check(&r); r }
         "C08" => { let r = Report::new(id, tier, "model_checking"); c08::check(&r); r }
         "C09" => { let r = Report::new(id, tier, "model_checking"); c09::check(&r); r }
@@ -56,6 +58,7 @@ pub fn replay(id: &str, path: &str) -> Option<i32> {
         "C03" => Some(c03::replay(path)),
         "C04" => Some(c04::replay(path)),
         "C05" => Some(c05::replay(path)),
+        "C06" => Some(c06::replay(path)),
         "C07" => Some(c07::replay(path)),
         "C08" => Some(c08::replay(path)),
         "C09" => Some(c09::replay(path)),
